@@ -6,8 +6,8 @@ out=seeded/RESULTS.txt
 : > $out
 for d in seeded/C*/; do
   p=$(basename $d)
-  if ! git -C /repo apply --check $d/patch.diff 2>/dev/null; then echo "$p patch-does-not-apply" >> $out; continue; fi
-  git -C /repo apply $d/patch.diff
+  if ! git -C /repo apply --check /verif/$d/patch.diff 2>/dev/null; then echo "$p patch-does-not-apply" >> $out; continue; fi
+  git -C /repo apply /verif/$d/patch.diff
   r=$(bin/check $p 2>&1 | grep -E "VIOLATION|tier=" )
   git -C /repo checkout -- .
   nv=$(echo "$r" | grep -c "^VIOLATION")
